@@ -5,7 +5,7 @@ CFG = dict(
     level_text="C07_wf_answer_partial: for EVERY program, EDB and fuel the engine strategy's answer is duplicate-free and every answer tuple is an instance of a clause of the answer relation with that clause's head arity and head constants verbatim (induction over the execution order and over the local fixpoint). Partial: aggregate heads (arity part) and the recursive min/max-in-loop path are not modelled; the oracle checks set-ness, arity and head constants on every implementation answer, incl. aggregate and recursive-aggregate programs.",
     level_note='Trusted: Coq kernel; hand-written Gallina model of clause semantics and of the engine strategy (Model/Datalog.v) — IRBuilder, the optimizer passes and Differential Dataflow are validated by the correspondence, not derived; harness printers.',
     corr_name='eval_engine vs IQLEngine::execute_tuples',
-    rule='shape-first program generator (1-4 derived heads + query, self recursion, 2-cycles, negation, comparisons, integer arithmetic, wildcards, constants, string column) x EDBs over a 3-5 value domain, plus a hand-written corpus; one third of the programs get an aggregate query; both all-off and default optimizer settings; non-trivial = non-empty answer',
+    rule='shape-first program generator (1-4 derived heads + query, self recursion, 2-cycles, negation, comparisons, integer arithmetic, wildcards, constants, string column) x EDBs over a 3-5 value domain, plus a hand-written corpus and targeted families: shared-subplan, bound-recursive query (`__query__` head, Magic Sets shape), negated relation defined later in the text, recursive answer relation, multi-key joins with permuted key order, union of projections, two-clause query heads, shuffled rule order; one third of the programs get an aggregate query; both all-off and default optimizer settings; non-trivial = non-empty answer',
     trusted_base=['IQLEngine public API (with_config, add_tuples, set_max_result_rows, execute_tuples)', 'Handler::query_program / validate_rules_stratification for C34'],
     assumptions=['values in generated programs are Int64 and strings; comparisons other than =/!= only between integers'],
 )
